@@ -35,7 +35,9 @@ Confluent == dst.res = "ok" => dst.reg = DedupRun(reg0).reg
 \* registration orders of the same set of calls / rules
 Perms(n) == <<[i \in 1..n |-> i], [i \in 1..n |-> n + 1 - i], [i \in 1..n |-> (i % n) + 1], [i \in 1..n |-> IF i % 2 = 1 /\ i < n THEN i + 1 ELSE IF i % 2 = 0 THEN i - 1 ELSE i]>>
 Reorder(s, pi) == [i \in DOMAIN s |-> s[pi[i]]]
-CallsFor8 == DerivePool
+\* m::R is registered specifically (pool entry 11) and recursively (entries 3, 12): the specific registration comes first here,
+\* so that it precedes the recursive ones in two of the four orders and follows them in the others
+CallsFor8 == <<DerivePool[11]>> \o SelectSeq(DerivePool, LAMBDA x : x # DerivePool[11])
 CallsForFoo == <<DCall("all_d", DPath(<<"x">>), <<"::z::Last", "::a::First", "Clone", "::m::Mid", "Debug", "::core::fmt::Debug", "::a::Clone", "::codec_a::Encode", "::codec_b::Encode">>, FALSE), DCall("all_a", DPath(<<"x">>), <<"#[zz]", "#[aa]", "#[mm(x=1)]", "#[codec(dumb_trait_bound)]", "#[codec(crate=::x::codec)]", "#[codec(mel_bound())]", "#[codec(a)]">>, FALSE),
                  DCall("for_d", DPath(<<"m", "Foo">>), <<"::d::F1", "::d::F0">>, TRUE), DCall("for_d", DPath(<<"m", "Goo">>), <<"::d::G1">>, FALSE),
                  DCall("for_a", DPath(<<"m", "h", "Hoo">>), <<"#[h1]", "#[h0]">>, TRUE), DCall("for_d", DPath(<<"m", "Foo">>), <<"::d::F2", "::e::F2", "F2">>, FALSE),
